@@ -2,10 +2,11 @@
 # usage: lib/seedtest.sh <patch.diff> <Cxx> [tier]   — apply a seeded change to /repo, run the check, undo.
 set -u
 patch=$1; prop=$2; tier=${3:-quick}
-cd /verif
-if ! git -C /repo diff --quiet; then echo "/repo has uncommitted changes"; exit 2; fi
-git -C /repo apply "$(realpath "$patch")" || { echo "patch does not apply"; exit 2; }
+cd "$(dirname "$0")/.."
+R=${VERIF_REPO:-/repo}
+if ! git -C $R diff --quiet; then echo "$R has uncommitted changes"; exit 2; fi
+git -C $R apply "$(realpath "$patch")" || { echo "patch does not apply"; exit 2; }
 ./check.sh "$prop" "$tier" > build/seedtest.out 2>&1; rc=$?
-git -C /repo checkout -- . ; git -C /repo clean -fdq -- schema atp plugin 2>/dev/null
+git -C $R checkout -- . ; git -C $R clean -fdq -- schema atp plugin 2>/dev/null
 grep -E '^(VIOLATION|KNOWN-FINDING|OK)' build/seedtest.out | head -5
 echo "exit=$rc"
